@@ -617,7 +617,10 @@ def main(chk: Check, replay: dict | None = None) -> int:
             print(f"VIOLATION property=C04 replay=(replayed) : {cases[0]['oracle_fail']}")
             return 1
         return 0
+    import time as _t
+    t0 = _t.time()
     chk.prove()
+    t_prove = _t.time() - t0
     rng = chk.rng
     batches: list[tuple[list[dict], list[tuple[int, dict]]]] = []
     # corpus first (each witness in a client of its own)
@@ -645,7 +648,9 @@ def main(chk: Check, replay: dict | None = None) -> int:
             batches.append(([op], [(0, a) for a in assignments(rng, op, cap=3)]))
         else:
             batches.append(([op], [(0, a) for a in assignments(rng, op, cap=16)]))
+    t0 = _t.time()
     cases = run_batch(batches)
+    t_impl = _t.time() - t0
     chk.cov["evaluations"] = len(cases)
     nontrivial = {json.dumps(c["input"], sort_keys=True) for c in cases
                   if c["input"]["args"]["params"] or c["input"]["args"]["body"]}
@@ -680,8 +685,14 @@ def main(chk: Check, replay: dict | None = None) -> int:
     if chk.model_ok:
         codes = chk.coq_eval("From PG Require Import Lib.Strs Model.Wire Corr.C04.", "input * obs",
                              [c_case(c) for c in cases], "run", shard=150)
+    chk.cov["phase_seconds"] = {"prove": round(t_prove, 1), "generate_and_drive": round(t_impl, 1)}
     for c in cases:
         c.pop("leaf", None)
+    if codes is not None:
+        inside = [c for c, k in zip(cases, codes) if k == 0]
+        dist["cases_inside_C04_partial_hypotheses"] = len(inside)          # well typed, every guard holds, model = impl
+        dist["cases_not_well_typed_in_the_model"] = sum(1 for k in codes if k >> 8 & 1)
+        dist["cases_per_failed_guard"] = {f"F04{'abcdefg'[i - 1]}": sum(1 for k in codes if k >> i & 1) for i in range(1, 8)}
     chk.decide(cases, codes, {1: "F04a", 2: "F04b", 3: "F04c", 4: "F04d", 5: "F04e", 6: "F04f", 7: "F04g"},
                "Corr.C04.run: Wire.call(model) = request captured under MockTransport (after decoding)")
     return chk.finish(
